@@ -1123,11 +1123,11 @@ func runC03(c *Ctx) {
 	c03Regressions(c)
 	c03HeaderCases(c)
 	c03AttrPairs(c)
-	for i := c.Budget(450, 40000); i > 0; i-- {
+	for i := c.Budget(400, 40000); i > 0; i-- {
 		c03RandomList(c, "pool", false)
 	}
-	for i := c.Budget(100, 8000); i > 0; i-- {
+	for i := c.Budget(60, 8000); i > 0; i-- {
 		c03RandomList(c, "pool-big", true)
 	}
-	c03SharedRandom(c, c.Budget(100, 6000))
+	c03SharedRandom(c, c.Budget(60, 6000))
 }
